@@ -1,0 +1,21 @@
+//go:build !verif
+
+// Package verifhook holds the seams used by the deterministic-simulation
+// harness. Without the "verif" build tag every function is an empty,
+// inlinable no-op and the shipped behaviour is unchanged.
+package verifhook
+
+// Enabled reports whether the simulation hooks are compiled in.
+const Enabled = false
+
+// Yield marks a point at which a simulator may park the calling goroutine.
+func Yield(_ string, _ ...string) {}
+
+// Fault lets a simulator inject an error at a named point.
+func Fault(_ string, _ ...string) error { return nil }
+
+// Event reports an observation to a simulator.
+func Event(_ string, _ ...string) {}
+
+// Order lets a simulator decide an otherwise arbitrary iteration order.
+func Order(_ string, _ []string) []string { return nil }
